@@ -858,6 +858,96 @@ Section Complete.
         finish_path d n.
       + rewrite knotify_miss by exact Hcov. eexists; split; reflexivity.
   Qed.
+
+  Lemma sub_moved_synth_eq p q T :
+    p <> [] -> q <> [] -> last_is_sep q = false -> wf_tree T = true -> sub_moved p q T = synth_moved p q T.
+  Proof.
+    intros Hp0 Hq0 Hs0 Hwf. unfold sub_moved, synth_moved. rewrite (sub_moved_correct _ _ Hp0 Hq0 Hs0 _ Hwf).
+    rewrite map_map. apply map_ext. intros [k0 rel]. unfold expect_moved. cbn. destruct k0; reflexivity.
+  Qed.
+
+  Lemma sub_created_synth_eq q T :
+    q <> [] -> last_is_sep q = false -> wf_tree T = true -> sub_created q T = synth_created q T.
+  Proof.
+    intros Hq0 Hs0 Hwf. unfold sub_created, synth_created. rewrite (sub_created_correct _ Hq0 Hs0 _ Hwf).
+    rewrite map_map. apply map_ext. intros [k0 rel]. unfold expect_created. cbn. destruct k0; reflexivity.
+  Qed.
+
+  Lemma child_ne d n : d ++ sep :: n <> [].
+  Proof. destruct d; discriminate. Qed.
+
+  Lemma child_last_sep d n : valid_name n = true -> last_is_sep (d ++ sep :: n) = false.
+  Proof.
+    intros Hn. change (d ++ sep :: n) with (d ++ [sep] ++ n). rewrite app_assoc.
+    now apply last_is_sep_app_name.
+  Qed.
+
+  (* rename of a directory onto a name that does not exist: inside the scope (with the synthetic moved events
+     of its descendants), out of it, into it (with synthetic created events).  The two facts about the tree
+     (what os.walk finds under the new name afterwards is what it found under the old name before; names are
+     valid) are hypotheses here and discharged from well-formedness of the tree below. *)
+  Lemma contract_rename_dir_tree dp np dq nq w' :
+    dp <> [] -> last_is_sep dp = false -> valid_name np = true ->
+    dq <> [] -> last_is_sep dq = false -> valid_name nq = true ->
+    cover C r k (w_fs w) dp -> cover C r k (w_fs w) dq ->
+    fisdir (dp ++ sep :: np) (w_fs w) = true -> fisdir (dq ++ sep :: nq) (w_fs w) = false ->
+    content (w_fs w') (dq ++ sep :: nq) = content (w_fs w) (dp ++ sep :: np) ->
+    wf_tree (content (w_fs w) (dp ++ sep :: np)) = true ->
+    apply_op w (Rename (dp ++ sep :: np) (dq ++ sep :: nq)) = Some w' ->
+    delivers C full w k r (Rename (dp ++ sep :: np) (dq ++ sep :: nq)).
+  Proof.
+    intros Hdp Hsp Hnp Hdq Hsq Hnq Hcp Hcq Hfp Hfq Hct Hwf Happ. start_rename Happ.
+    rewrite Hfp, Hfq. unfold cover in Hcp, Hcq. fold rec root in Hcp, Hcq |- *.
+    assert (Hsm := sub_moved_synth_eq (dp ++ sep :: np) (dq ++ sep :: nq) _ (child_ne dp np) (child_ne dq nq)
+                                      (child_last_sep dq nq Hnq) Hwf).
+    assert (Hsc := sub_created_synth_eq (dq ++ sep :: nq) _ (child_ne dq nq) (child_last_sep dq nq Hnq) Hwf).
+    rewrite <- Hct in Hsm, Hsc.
+    destruct (watched_dir rec root dp).
+    - destruct Hcp as [wp [Hw [Hm [Hp Hf]]]].
+      rewrite (knotify_hit _ _ _ _ _ _ _ _ wp Hw Hm) by reflexivity. rewrite kpush_nil.
+      destruct (watched_dir rec root dq).
+      + destruct Hcq as [wq [Hw' [Hm' [Hp' Hf']]]].
+        rewrite (knotify_hit _ _ _ _ _ _ _ _ wq Hw' Hm') by reflexivity.
+        rewrite kpush_one by (apply kraw_neq_mask; reflexivity).
+        cbn [k_queue kset read_batch].
+        rewrite (read_one_from C _ _ _ _ _ dp) by (first [exact Hp | reflexivity]).
+        match goal with |- context [read_one C ?t (?r1, ?k1, ?acc) ?e] =>
+          destruct (read_one_to C t r1 k1 acc e dq) as [r' [k' Hrd]];
+            [exact Hp' | reflexivity | reflexivity | reflexivity | reflexivity | rewrite Hrd] end.
+        cbn [k_name kev app rpath]. rewrite ?rpath_child by assumption.
+        rewrite (join_name dq nq) by assumption.
+        rewrite <- Hct.
+        set (p := dp ++ sep :: np) in *. set (q := dq ++ sep :: nq) in *.
+        rewrite (group_pair C _ _ (k_next_cookie k)) by reflexivity.
+        eexists. split; [reflexivity|].
+        cbn [emit_all emit]. unfold emit_pair. cbn [r_path r_mask mkraw kev k_mask fst snd].
+        change (is_directory (N.lor IN_MOVED_FROM IN_ISDIR)) with true.
+        rewrite Hsm. destruct rec; cbn [andb app]; rewrite ?app_nil_r; reflexivity.
+      + rewrite knotify_miss by exact Hcq.
+        cbn [k_queue kset read_batch].
+        rewrite (read_one_from C _ _ _ _ _ dp) by (first [exact Hp | reflexivity]).
+        cbn [k_name kev app rpath]. rewrite ?rpath_child by assumption.
+        set (p := dp ++ sep :: np) in *. set (q := dq ++ sep :: nq) in *.
+        eexists. split; [reflexivity|]. destruct full; reflexivity.
+    - rewrite knotify_miss by exact Hcp.
+      destruct (watched_dir rec root dq).
+      + destruct Hcq as [wq [Hw' [Hm' [Hp' Hf']]]].
+        rewrite (knotify_hit _ _ _ _ _ _ _ _ wq Hw' Hm') by reflexivity. rewrite kpush_nil.
+        cbn [k_queue kset read_batch].
+        match goal with |- context [read_one C ?t (?r1, ?k1, ?acc) ?e] =>
+          destruct (read_one_to C t r1 k1 acc e dq) as [r' [k' Hrd]];
+            [exact Hp' | reflexivity | reflexivity | reflexivity | reflexivity | rewrite Hrd] end.
+        cbn [k_name kev app rpath]. rewrite (join_name dq nq) by assumption.
+        rewrite <- Hct.
+        set (p := dp ++ sep :: np) in *. set (q := dq ++ sep :: nq) in *.
+        eexists. split; [reflexivity|].
+        match goal with |- context [group_batch C [?e]] => change (group_batch C [e]) with [Single e] end.
+        cbn [emit_all emit]. unfold emit_single. cbn [r_path r_mask mkraw kev k_mask fst snd].
+        change (is_moved_to (N.lor IN_MOVED_TO IN_ISDIR)) with true.
+        change (is_directory (N.lor IN_MOVED_TO IN_ISDIR)) with true. cbv iota.
+        rewrite Hsc. destruct rec, full; cbn [andb app]; rewrite ?app_nil_r; reflexivity.
+      + rewrite knotify_miss by exact Hcq. eexists; split; reflexivity.
+  Qed.
 End Complete.
 
 (* ================================================================== 5. history-level soundness: refuted (F10) *)
